@@ -5,7 +5,7 @@ from . import common as C
 ID = 'C18'
 LEVEL = 'exploration'
 BUDGET = {'quick': 100, 'thorough': 900}
-RULE = ('Cases = histories of <= 8 operations over context ids {1,2,3}: create, create duplicate, delete, delete unknown, start '
+RULE = ('Cases = histories of <= 8 operations over context ids {1,2,3}: create, create duplicate, delete, delete unknown, repeated close / wait / terminate on the handle of a deleted context (id possibly re-registered), start '
         '(one-shot / persistent) worker in context i, start worker in an unknown context, enqueue, wait x schedule; checked against '
         "a dictionary model of the server's context table, with a fresh round trip after every operation.")
 ASSUMPTIONS = ['every context registers a distinct (id, generation) tag as default argument so that results identify their context']
@@ -17,14 +17,26 @@ def gen_case(ctx, rng, i, tag='random'):
     from harness.check import draw_env
     pol, knobs = draw_env(rng, tcp=True)
     ops = []
+    if rng.random() < 0.25:
+        # directed prefix: an id is deleted and registered again (new generation) before something touches the old handle
+        cid = rng.choice(IDS)
+        ops += [['create', cid], ['delete', cid], ['create', cid]]
+        if rng.random() < 0.5:
+            ops.append(['pworker', cid])
+        ops.append(['stale', cid, rng.choice(['close', 'wait', 'terminate'])])
+        if rng.random() < 0.5:
+            ops.append(['enqueue', 0])
     for _ in range(rng.randrange(2, 9)):
         r = rng.random()
         cid = rng.choice(IDS)
         if r < 0.3:
             ops.append(['create', cid])
-        elif r < 0.45:
+        elif r < 0.42:
             ops.append(['delete', cid])
-        elif r < 0.65:
+        elif r < 0.5:
+            # clean-up code calling close() / wait() / terminate() once more on the handle of an already deleted context
+            ops.append(['stale', cid, rng.choice(['close', 'wait', 'terminate'])])
+        elif r < 0.68:
             ops.append(['worker', cid])
         elif r < 0.8:
             ops.append(['pworker', cid])
@@ -57,6 +69,7 @@ class Run:
         model = {}        # id -> {'tag': str, 'obj': RemoteContext, 'pworkers': [...]}
         gen = {i: 0 for i in IDS}
         pws = []          # (ctx id, tag, worker, n_enqueued)
+        stale = {i: [] for i in IDS}     # handles of contexts deleted through them
         rt = 0
         for op in c['ops']:
             name = op[0]
@@ -90,6 +103,7 @@ class Run:
                         return
                     if ent['obj'].is_alive():
                         self.viol('delete', 'context-still-alive-after-delete')
+                    stale[cid].append(ent['obj'])
                     # its workers end
                     s.sleep(1.0)
                     for p in mine:
@@ -114,6 +128,29 @@ class Run:
                             self.viol('delete', f'delete-unknown-{r[0]}:{type(r[1]).__name__ if r[1] is not None else None}')
                             if r[0] == 'hung':
                                 return
+            elif name == 'stale':
+                cid = op[1]
+                if stale[cid]:
+                    h = stale[cid][-1]
+                    r = lib.call_with_deadline(getattr(h, op[2]), 300.0)
+                    if r[0] != 'ok' or (op[2] != 'close' and r[1] is not True):
+                        self.viol('delete', f'repeated-{op[2]}-on-deleted-context-handle:{r[0]}:{lib.safe_repr(r[1])}')
+                        if r[0] == 'hung':
+                            return
+                    if cid in model:
+                        # the context registered under this id meanwhile is somebody else's: it must be untouched
+                        tagv = model[cid]['tag']
+                        r = lib.call_with_deadline(RemoteWorker, 600.0, None, context=cid, host=addr)
+                        if r[0] != 'ok':
+                            self.viol('delete-affects-own-context-only', f'context-gone-after-{op[2]}-on-stale-handle:worker-ctor-{r[0]}:{type(r[1]).__name__}')
+                            return
+                        w = r[1]
+                        r = lib.call_with_deadline(w.wait, 300.0, timeout=30)
+                        exp = [[tagv], {'k': cid}]
+                        if not (r[0] == 'ok' and r[1] is True) or w.has_error is not False or w.result != exp:
+                            self.viol('delete-affects-own-context-only', f'context-damaged-after-{op[2]}-on-stale-handle',
+                                      {'got': lib.safe_repr(w.result), 'err': lib.safe_repr(w.error), 'exp': exp})
+                            return
             elif name in ('worker', 'pworker'):
                 cid = op[1]
                 cls = RemoteWorker if name == 'worker' else PersistentRemoteWorker
